@@ -118,6 +118,36 @@ def make_replayer():
     return replayer
 
 
+def demote_unfitting_invariants(report):
+    """A sidecar loop invariant names the kernel's running offsets.  When one
+    is refuted, the annotations no longer describe this code (a real slip, or
+    a harmless restructuring of the offsets), and every other obligation of
+    that kernel was examined under an assumption that may be false.  The
+    replay decides: if the battery finds a failing input for the kernel the
+    refutations stand (VIOLATION with the input); if it finds none they are
+    reported as UNDECIDED (exit 2), not as violations."""
+    bad = {}
+    for ob in report.obs:
+        if ob.kind == 'loop-invariant' and ob.status == 'refuted':
+            bad.setdefault(ob.meta.get('fn'), []).append(ob)
+    if not bad:
+        return
+    confirmed = {}
+    for fn in bad:
+        try:
+            ok, info = report.replayer(bad[fn][0], None)
+        except Exception:
+            ok, info = False, {}
+        confirmed[fn] = ok
+    for ob in report.obs:
+        fn = ob.meta.get('fn')
+        if fn in bad and ob.status == 'refuted' and not confirmed[fn]:
+            ob.status = 'undecided'
+            ob.detail = ('a sidecar loop invariant of misc.%s does not fit '
+                         'the code and the replay battery finds no failing '
+                         'input: the annotations need to be adapted' % fn)
+
+
 PYFUNCS = [('misc.py', 'contracts.py.misc_kernels_spec', f)
            for f in ('sgemv', 'snrm2', 'jdot', 'jnrm2')]
 
@@ -136,6 +166,7 @@ def run(report, tier, seed):
         parts = ob.oid.split(':')
         ob.meta['fn'] = parts[1] if len(parts) > 1 else ''
     report.replayer = make_replayer()
+    demote_unfitting_invariants(report)
     report.floor = 100
     report.extra['explanation'] = (
         'Each kernel is verified against a set of documented block '
